@@ -1524,9 +1524,9 @@ def check_c13(mt, sess):
         seen[s.name] = seen.get(s.name, 0) + 1
     dups = sorted(n for n, c in seen.items() if c > 1)
     if dups:
-        raise core.Violation("C13", "duplicate-name", {"names": dups[:5]}, {"temp": bool(re.match(r"^\\.L|^\\$L", dups[0]))})
+        raise core.Violation("C13", "duplicate-name", {"names": dups[:5]}, {"temp": bool(re.match(r"^\.L|^\$L", dups[0]))})
     # every copy's references to temporary labels stay inside the copy
-    temp = re.compile(r"^(\\.L|\\$L|L\\$).*_(\\d+)$")
+    temp = re.compile(r"^(\.L|\$L|L\$).*_(\d+)$")
     for c in sess.captures:
         cap = c["cap"]
         if cap is None:
@@ -1534,12 +1534,15 @@ def check_c13(mt, sess):
         own = set()
         for sec in cap["sections"].values():
             own.update(l[0] for l in sec["labels"])
-        suffixes = {temp.match(n).group(2) for n in own if temp.match(n)}
+        # names the patch text spells out itself (a label an earlier session
+        # left in the module is an ordinary module symbol by now)
+        plines = ((sess.desc["ops"][c["op"]].get("patch") or {}).get("lines")) or []
+        explicit = {l.get("t") for l in plines if l.get("t") and not l.get("ttemp")}
         for sec in cap["sections"].values():
             for off, (size, ed) in sec["sx"].items():
                 for name in ([ed[1]] + ([ed[2]] if ed[0] == "diff" else [])):
                     mo = temp.match(name) if isinstance(name, str) else None
-                    if mo and name not in own:
+                    if mo and name not in own and name not in explicit and not any(name in l.get("raw", "") for l in plines):
                         # a temporary label of another invocation (or of an
                         # earlier session, which is legitimate only if the
                         # patch text named it explicitly - ours never does)
